@@ -99,23 +99,40 @@ Finish(res, ob) == IF res[2] = ob THEN res[1] ELSE MoveAxisT(res[1], res[2], ob)
 ShapeFor(bd) == InsertAt(<<2, 3>>, bd, 2)
 InputT(bd, s) == Tensor(ShapeFor(bd), LAMBDA ix : ((7 * ix[1] + 3 * ix[2] + 5 * ix[3] + s * ix[1] * ix[3]) % 5) - 2)
 
-Cases == {[op |-> op, bd |-> bd, axis |-> axis, ob |-> ob, s |-> s] :
+\* kind "vmap": the batched cases above.  kind "direct": the operator itself on a rank-3 operand along every
+\* axis (C01: the per-example meaning the lowering of each axis operator has to reproduce) -- bd, ob unused (0)
+Cases == {[kind |-> "vmap", op |-> op, bd |-> bd, axis |-> axis, ob |-> ob, s |-> s] :
              op \in Ops, bd \in 1..3, axis \in {-2, -1, 0, 1}, ob \in 1..3, s \in {1, 2}}
+         \cup {[kind |-> "direct", op |-> op, bd |-> 0, axis |-> axis, ob |-> 0, s |-> s] :
+                 op \in Ops, axis \in -3..2, s \in {1, 2}}
 OutRank(op) == IF op \in Reducing THEN R ELSE R + 1
-Legal(c) == c.ob <= OutRank(c.op)
+Legal(c) == c.kind = "direct" \/ c.ob <= OutRank(c.op)
+DirectT(s) == Tensor(<<2, 3, 2>>, LAMBDA ix : ((7 * ix[1] + 3 * ix[2] + 5 * ix[3] + s * ix[1] * ix[3] + 2 * ix[2] * ix[3]) % 5) - 2)
+\* nested sequences for emission
+Nest(t) == CASE Len(t.sh) = 1 -> [i \in 1..t.sh[1] |-> t.f[<<i>>]]
+             [] Len(t.sh) = 2 -> [i \in 1..t.sh[1] |-> [j \in 1..t.sh[2] |-> t.f[<<i, j>>]]]
+             [] Len(t.sh) = 3 -> [i \in 1..t.sh[1] |-> [j \in 1..t.sh[2] |-> [m \in 1..t.sh[3] |-> t.f[<<i, j, m>>]]]]
+CaseInput(c) == IF c.kind = "direct" THEN DirectT(c.s) ELSE InputT(c.bd, c.s)
 
 VARIABLES case, expect, got, done
 vars == <<case, expect, got, done>>
 Init == case \in {c \in Cases : Legal(c)} /\ expect = 0 /\ got = 0 /\ done = FALSE
+Canon3(axis) == (IF axis < 0 THEN axis + 3 ELSE axis) + 1
 Evaluate == /\ ~done
-            /\ LET X == InputT(case.bd, case.s) IN
-               /\ expect' = VmapSpec(case.op, X, case.bd, case.axis, case.ob)
-               /\ got' = Finish(Rule(Variant, case.op, X, case.bd, case.axis), case.ob)
+            /\ IF case.kind = "direct"
+                 THEN /\ expect' = ApplyOp(case.op, DirectT(case.s), Canon3(case.axis))
+                      \* the same operator computed through a layout change: move the axis last, apply, move back
+                      /\ got' = LET a == Canon3(case.axis)
+                                    moved == ApplyOp(case.op, MoveAxisT(DirectT(case.s), a, 3), 3)
+                                IN IF case.op \in Reducing THEN moved ELSE MoveAxisT(moved, 3, a)
+                 ELSE LET X == InputT(case.bd, case.s) IN
+                      /\ expect' = VmapSpec(case.op, X, case.bd, case.axis, case.ob)
+                      /\ got' = Finish(Rule(Variant, case.op, X, case.bd, case.axis), case.ob)
             /\ done' = TRUE /\ UNCHANGED case
 Next == Evaluate
 Spec == Init /\ [][Next]_vars
 
 RuleSound == done => got = expect
 \* the two formulations of the specification agree (negative and non-negative axis address the same dimension)
-AxisAlias == done => expect = VmapSpec(case.op, InputT(case.bd, case.s), case.bd, IF case.axis < 0 THEN case.axis + R ELSE case.axis - R, case.ob)
+AxisAlias == (done /\ case.kind = "vmap") => expect = VmapSpec(case.op, InputT(case.bd, case.s), case.bd, IF case.axis < 0 THEN case.axis + R ELSE case.axis - R, case.ob)
 =============================================================================
